@@ -76,6 +76,28 @@ func corpusReadback(c *Ctx, name string, words ...string) explore.Scenario {
 		}, Describe: func(idx []int) any { return "all zero-copy / frozen corpus entries" }}
 }
 
+// readOnlyGuard snapshots a bitmap before a battery of read-only calls; the returned function reports a failure if
+// the battery changed the contents or the representation (copy-on-write flags may be gained, never lost).
+func readOnlyGuard(api string, b *roaring.Bitmap, m *model.Set32) func() *ev.Fail {
+	before := roaring.VerifViewOf(b)
+	sig := sigNoFlags(before)
+	return func() *ev.Fail {
+		after := roaring.VerifViewOf(b)
+		for i := range after.Chunks {
+			if i < len(before.Chunks) && before.Chunks[i].COW && !after.Chunks[i].COW {
+				return fail(api, "cleared-cow-flag", "read-only %s calls cleared the copy-on-write flag of chunk %d", api, after.Chunks[i].Key)
+			}
+		}
+		if s := sigNoFlags(after); s != sig {
+			return fail(api, "modified-representation", "read-only %s calls changed the representation: %s -> %s", api, sig, s)
+		}
+		if got := extract.Content(after); !got.Equal(m) {
+			return fail(api, "modified-content", "read-only %s calls changed the contents: %s", api, diff32(got, m))
+		}
+		return nil
+	}
+}
+
 // ---- 32-bit world: one register, used by C02 and others ----
 
 type W32 struct {
